@@ -61,9 +61,20 @@ func c18Family(t *rapid.T, ev *evProp, fam string, gis []*GroupInfo, withModel b
 	nsteps := rapid.IntRange(1, 40).Draw(t, "nsteps")
 	ri := func(l string) int { return rapid.IntRange(0, c18Regs-1).Draw(t, l) }
 	ops := []string{"sset", "sset", "sadd", "ssub", "smul", "sneg", "sinv", "pbase", "pmulbase", "pmul", "pmul", "padd", "psub", "pneg", "pdbl", "pnull", "pdecode", "phostile"}
+	// recv: the receiver of a point operation is either a fresh point or the object currently held in
+	// the destination register (in place; it aliases an operand whenever r == a or r == b).  The same
+	// choice is made on every implementation.
+	inPlace := false
+	recv := func(im *c18Impl, r int) kyber.Point {
+		if inPlace {
+			return im.pt[r]
+		}
+		return newPoint(im.gi)
+	}
 	for step := 0; step < nsteps; step++ {
 		op := rapid.SampledFrom(ops).Draw(t, "op")
 		r := ri("r")
+		inPlace = rapid.IntRange(0, 2).Draw(t, "inplace") == 0
 		if op == "pmulbase" {
 			for _, gi := range gis {
 				if !gi.MulNil {
@@ -151,7 +162,7 @@ func c18Family(t *rapid.T, ev *evProp, fam string, gis []*GroupInfo, withModel b
 		case "pmul":
 			k, a := ri("k"), ri("a")
 			for _, im := range impls {
-				im.pt[r] = (newPoint(im.gi).Mul(im.sc[k], im.pt[a]))
+				im.pt[r] = (recv(im, r).Mul(im.sc[k], im.pt[a]))
 			}
 			if ref != nil {
 				modelPt[r] = ref.Mul(modelSc[k], modelPt[a])
@@ -162,9 +173,9 @@ func c18Family(t *rapid.T, ev *evProp, fam string, gis []*GroupInfo, withModel b
 			a, b := ri("a"), ri("b")
 			for _, im := range impls {
 				if op == "padd" {
-					im.pt[r] = (newPoint(im.gi).Add(im.pt[a], im.pt[b]))
+					im.pt[r] = (recv(im, r).Add(im.pt[a], im.pt[b]))
 				} else {
-					im.pt[r] = (newPoint(im.gi).Sub(im.pt[a], im.pt[b]))
+					im.pt[r] = (recv(im, r).Sub(im.pt[a], im.pt[b]))
 				}
 			}
 			if ref != nil {
@@ -179,9 +190,9 @@ func c18Family(t *rapid.T, ev *evProp, fam string, gis []*GroupInfo, withModel b
 			a := ri("a")
 			for _, im := range impls {
 				if op == "pneg" {
-					im.pt[r] = (newPoint(im.gi).Neg(im.pt[a]))
+					im.pt[r] = (recv(im, r).Neg(im.pt[a]))
 				} else {
-					im.pt[r] = (newPoint(im.gi).Add(im.pt[a], im.pt[a]))
+					im.pt[r] = (recv(im, r).Add(im.pt[a], im.pt[a]))
 				}
 			}
 			if ref != nil {
@@ -243,6 +254,9 @@ func c18Family(t *rapid.T, ev *evProp, fam string, gis []*GroupInfo, withModel b
 				modelPt[r] = modelPt[a]
 			}
 			hist = append(hist, fmt.Sprintf("P%d = decode(encode_%s(P%d))", r, impls[src].gi.Name, a))
+		}
+		if inPlace && (op == "pmul" || op == "padd" || op == "psub" || op == "pneg" || op == "pdbl") && len(hist) > 0 {
+			hist[len(hist)-1] += "   [receiver: the object in the destination register]"
 		}
 		// compare all registers
 		for i := 0; i < c18Regs; i++ {
